@@ -74,6 +74,8 @@ K_EXPORT_DEFAULT_FN = re.compile(rb'export\s+default\s*\(+\s*(?:async\s+)?(?:fun
 # K16: a string-key index on an integer literal is rewritten to a dot without the second dot: 1['s'] -> 1.s, (0x10)['s'] -> 16.s
 _INT = rb'(?:0[xXbBoO][\da-fA-F]+|\d+)'
 K_INT_INDEX = re.compile(rb'(?<![\w.$\])])(?:\(\s*)+' + _INT + rb'(?:\s*\))+\s*\[\s*["\'][A-Za-z_$]|(?<![\w.$(])' + _INT + rb'\s*\[\s*["\'][A-Za-z_$]')
+# K17: regexp character class: the backslash of \\- is dropped after another escape was removed, turning literal characters into a range: /[(\\^\\--]/ -> /[(^--]/
+K_REGEX_DASH = re.compile(rb'\[[^\]\n]*\\[^\]\n]\\-')
 # K10: a processing instruction whose content contains ">" before its "?>" is cut at that ">" by the XML/SVG minifiers
 K_PI_GT = re.compile(rb'<\?(?:(?!\?>)[^>])*(?<!\?)>', re.S)
 
@@ -141,6 +143,8 @@ def excluded(lang, opts, b):
         tags.append('K15')
     if lang in ('js', 'html') and K_INT_INDEX.search(b):
         tags.append('K16')
+    if lang in ('js', 'html') and K_REGEX_DASH.search(b):
+        tags.append('K17')
     if lang == 'html' and K_SCRIPT_TYPE_CASE.search(b):
         tags.append('K11')
     if lang in ('js', 'html') and ('names' in opts or 'keep' in opts) and same_name_var_and_let(b):
@@ -672,7 +676,7 @@ def run(ctx):
         chosen_ctx = vlib.sample(hot, 1000, rnd) + vlib.sample(cold, 1000, rnd)
     else:
         cset, dset, pset = ctx_sets()
-        two = [(rnd.choice(cset), [rnd.choice(dset), rnd.choice(dset)], rnd.choice(pset)) for _ in range(30000)]
+        two = [(rnd.choice(cset), [rnd.choice(dset), rnd.choice(dset)], rnd.choice(pset)) for _ in range(15000)]
         chosen_ctx = ctxprogs + two
     nctx = 0
     for c, ds, pay in (chosen_ctx if not only_pinned or only_ctx else []):
